@@ -5,6 +5,6 @@ import "time"
 func init() {
 	plans["C35"] = Plan{Pkg: pkg("C35"), Steps: []Step{
 		{Run: "TestExhaustive", Kind: "test", QTimeout: 10 * time.Minute, TTimeout: 60 * time.Minute},
-		{Run: "TestSessionRequired", Quick: 1200, Thorough: 64000, QShards: 8, TShards: 16, QTimeout: 10 * time.Minute, TTimeout: 60 * time.Minute},
+		{Run: "TestSessionRequired", Quick: 2400, Thorough: 120000, QShards: 8, TShards: 16, QTimeout: 10 * time.Minute, TTimeout: 60 * time.Minute},
 	}}
 }
